@@ -1,8 +1,8 @@
-\* leg A quick: 2 calls, all environment actions, liveness
+\* leg A thorough: 3 calls, everything, liveness
 SPECIFICATION FairSpec
 CONSTANTS
-  NCalls = 2
-  MaxDials = 2
+  NCalls = 3
+  MaxDials = 3
   QueueLimit = 2
   ConnCap = 2
   Policy = "code"
